@@ -1013,7 +1013,7 @@ impl T<'_> {
                 let k = self.c.below(vars.len());
                 self.w(&format!("{name}::{}", vars[k]));
             }
-            Ty::OptInt => match self.c.below(4) {
+            Ty::OptInt => match self.c.below(if d >= 8 { 2 } else { 4 }) {
                 0 => self.w("None"),
                 1 => {
                     self.w("Some(");
@@ -1180,6 +1180,10 @@ impl T<'_> {
                 2 if !self.facts.is_empty() => {
                     let k = self.c.below(self.facts.len());
                     let (name, keys, vals) = self.facts[k].clone();
+                    if name.starts_with("Im") && !self.slip() {
+                        self.w("\n");
+                        continue;
+                    }
                     self.w(&format!("update {name}["));
                     for (i, (kn, kt)) in keys.iter().enumerate() {
                         if i > 0 {
@@ -1259,9 +1263,12 @@ impl T<'_> {
             let keys = self.field_list(nk, true, "k");
             let nv = self.c.below(3);
             let vals = self.field_list(nv, false, "v");
-            if self.c.chance(1, 6) {
+            let name = if self.c.chance(1, 6) {
                 self.w("immutable ");
-            }
+                format!("Im{name}")
+            } else {
+                name
+            };
             self.w(&format!("fact {name}["));
             self.write_fields(&keys);
             self.w("]=>{");
@@ -1331,11 +1338,12 @@ impl T<'_> {
             self.finish_funcs.push((name, params.into_iter().map(|p| p.1).collect()));
         }
         for _ in 0..1 + self.c.below(2) {
-            let name = self.fresh("Cmd");
+            let mut name = self.fresh("Cmd");
             let nf = self.c.below(4);
             let fields = self.field_list(nf, false, "c");
             if self.c.chance(1, 6) {
                 self.w("ephemeral ");
+                name = format!("Eph{name}");
             }
             self.w(&format!("command {name} {{\n"));
             if self.c.chance(1, 4) {
@@ -1367,6 +1375,9 @@ impl T<'_> {
             self.w("}\n");
             if recall {
                 self.w(&format!("recall {rname}() {{\n"));
+                // the recall block does not see the policy block's locals
+                let keep = fields.len();
+                self.scopes.last_mut().unwrap().truncate(keep);
                 self.stmts(2, None, 1);
                 self.finish_block(1);
                 self.w("}\n");
@@ -1379,7 +1390,8 @@ impl T<'_> {
             let name = self.fresh("act");
             let np = self.c.below(3);
             let params = self.field_list(np, false, "a");
-            if self.c.chance(1, 6) {
+            let eph = self.c.chance(1, 6);
+            if eph {
                 self.w("ephemeral ");
             }
             self.w(&format!("action {name}("));
@@ -1387,9 +1399,12 @@ impl T<'_> {
             self.w(") {\n");
             self.scopes.push(params);
             self.stmts(1, None, 0);
-            if !self.cmds.is_empty() && !self.slip() {
-                let k = self.c.below(self.cmds.len());
-                let (cn, cf) = self.cmds[k].clone();
+            let slip = self.slip();
+            let cands: Vec<(String, Vec<(String, Ty)>)> =
+                self.cmds.iter().filter(|c| slip || c.0.starts_with("Eph") == eph).cloned().collect();
+            if !cands.is_empty() {
+                let k = self.c.below(cands.len());
+                let (cn, cf) = cands[k].clone();
                 self.w("publish ");
                 self.named_lit(&cn, &cf, 1);
                 self.w("\n");
@@ -1651,6 +1666,10 @@ fn short_file(loc: &str) -> String {
 /// Keeps the input-independent head of a panic message (up to the first number or quoted excerpt; backtick spans that
 /// look like code such as `Option::unwrap()` are kept), so that one defect has one signature.
 fn normalize(msg: &str) -> String {
+    // one family in the markdown crate: the pair of event names after this text varies with the input
+    if let Some(i) = msg.find("mismatched (non-jsx)") {
+        return msg[..i + "mismatched (non-jsx)".len()].to_string();
+    }
     let chars: Vec<char> = msg.chars().collect();
     let mut out = String::new();
     let mut i = 0;
@@ -1820,7 +1839,7 @@ pub fn run(ctx: &Ctx) -> ! {
          not already a document, through a standard document wrapper; every AST obtained is compiled with debug x stub_ffi \
          (4 combinations); returned errors are rendered. Non-trivial = some parser accepted the text (the compiler ran)",
         case,
-        ctx.pick(100_000, 3_000_000),
+        ctx.pick(100_000, 2_000_000),
         check,
     );
     rep.finish()
